@@ -1904,6 +1904,12 @@ pub struct RelationalEngine {
     tx_manager: TransactionManager,
     /// Serializes DDL operations to prevent TOCTOU races.
     ddl_lock: RwLock<()>,
+    /// Counts index DDL (create/drop of hash and ordered indexes).
+    index_ddl_epoch: AtomicU64,
+    /// Index DDL epoch seen by each open transaction when it recorded its first change.
+    /// A rollback whose undo entries predate an index change cannot maintain that index
+    /// entry by entry and rebuilds the indexes of the tables it touched instead.
+    tx_index_epochs: parking_lot::Mutex<HashMap<u64, u64>>,
     /// Striped locks for atomic index entry updates (bounded memory via lock striping).
     index_locks: [RwLock<()>; 64],
     /// Maximum allowed B-tree index entries across all indexes.
@@ -2089,6 +2095,8 @@ impl RelationalEngine {
             is_durable: false,
             tx_manager,
             ddl_lock: RwLock::new(()),
+            index_ddl_epoch: AtomicU64::new(0),
+            tx_index_epochs: parking_lot::Mutex::new(HashMap::new()),
             index_locks: std::array::from_fn(|_| RwLock::new(())),
             max_btree_entries: config.max_btree_entries,
             btree_entry_count: AtomicUsize::new(0),
@@ -2126,6 +2134,8 @@ impl RelationalEngine {
             is_durable: false,
             tx_manager,
             ddl_lock: RwLock::new(()),
+            index_ddl_epoch: AtomicU64::new(0),
+            tx_index_epochs: parking_lot::Mutex::new(HashMap::new()),
             index_locks: std::array::from_fn(|_| RwLock::new(())),
             max_btree_entries: config.max_btree_entries,
             btree_entry_count: AtomicUsize::new(0),
@@ -2180,6 +2190,8 @@ impl RelationalEngine {
             is_durable: true,
             tx_manager,
             ddl_lock: RwLock::new(()),
+            index_ddl_epoch: AtomicU64::new(0),
+            tx_index_epochs: parking_lot::Mutex::new(HashMap::new()),
             index_locks: std::array::from_fn(|_| RwLock::new(())),
             max_btree_entries: config.max_btree_entries,
             btree_entry_count: AtomicUsize::new(0),
@@ -2245,6 +2257,8 @@ impl RelationalEngine {
             is_durable: true,
             tx_manager,
             ddl_lock: RwLock::new(()),
+            index_ddl_epoch: AtomicU64::new(0),
+            tx_index_epochs: parking_lot::Mutex::new(HashMap::new()),
             index_locks: std::array::from_fn(|_| RwLock::new(())),
             max_btree_entries: config.max_btree_entries,
             btree_entry_count: AtomicUsize::new(0),
@@ -5363,6 +5377,7 @@ impl RelationalEngine {
 
         // Atomic DDL: acquire lock before check-then-act to prevent TOCTOU races
         let _ddl_guard = self.ddl_lock.write();
+        self.index_ddl_epoch.fetch_add(1, Ordering::SeqCst);
 
         // Re-check limit under lock to prevent race conditions
         self.check_index_limit(table)?;
@@ -5465,6 +5480,7 @@ impl RelationalEngine {
 
         // Atomic DDL: acquire lock before check-then-act to prevent TOCTOU races
         let _ddl_guard = self.ddl_lock.write();
+        self.index_ddl_epoch.fetch_add(1, Ordering::SeqCst);
 
         // Re-check limit under lock to prevent race conditions
         self.check_index_limit(table)?;
@@ -5541,6 +5557,7 @@ impl RelationalEngine {
 
         // Atomic DDL: acquire lock before check-then-act to prevent TOCTOU races
         let _ddl_guard = self.ddl_lock.write();
+        self.index_ddl_epoch.fetch_add(1, Ordering::SeqCst);
 
         let meta_key = Self::btree_meta_key(table, column);
         if !self.store.exists(&meta_key) {
@@ -5601,6 +5618,7 @@ impl RelationalEngine {
 
         // Atomic DDL: acquire lock before check-then-act to prevent TOCTOU races
         let _ddl_guard = self.ddl_lock.write();
+        self.index_ddl_epoch.fetch_add(1, Ordering::SeqCst);
 
         let meta_key = Self::index_meta_key(table, column);
         if !self.store.exists(&meta_key) {
@@ -6557,6 +6575,7 @@ impl RelationalEngine {
         // Mark as committed and remove
         self.tx_manager.set_phase(tx_id, TxPhase::Committed);
         self.tx_manager.remove(tx_id);
+        self.tx_index_epochs.lock().remove(&tx_id);
 
         Ok(())
     }
@@ -6588,9 +6607,26 @@ impl RelationalEngine {
 
         // Apply undo entries in reverse order, collecting any errors
         let mut all_errors: Vec<String> = Vec::new();
+        let mut touched_tables: Vec<String> = Vec::new();
         for entry in undo_log.into_iter().rev() {
             let errors = self.apply_undo_entry(&entry);
             all_errors.extend(errors);
+            let (UndoEntry::InsertedRow { table, .. }
+            | UndoEntry::UpdatedRow { table, .. }
+            | UndoEntry::DeletedRow { table, .. }) = &entry;
+            if !touched_tables.contains(table) {
+                touched_tables.push(table.clone());
+            }
+        }
+
+        // The undo entries name the index columns that existed when each change was made.
+        // If indexes were created or dropped since, an index built meanwhile holds the
+        // uncommitted values: rebuild the indexes of the touched tables from the restored rows.
+        let epoch_at_first_change = self.tx_index_epochs.lock().remove(&tx_id);
+        if epoch_at_first_change.is_some_and(|e| e != self.index_ddl_epoch.load(Ordering::SeqCst)) {
+            for table in &touched_tables {
+                all_errors.extend(self.rebuild_table_indexes(table));
+            }
         }
 
         // ALWAYS release locks and clean up, even if undo had errors
@@ -6611,6 +6647,36 @@ impl RelationalEngine {
         }
 
         Ok(())
+    }
+
+    /// Remember the index DDL epoch at a transaction's first recorded change.
+    fn note_index_epoch(&self, tx_id: u64) {
+        let epoch = self.index_ddl_epoch.load(Ordering::SeqCst);
+        self.tx_index_epochs.lock().entry(tx_id).or_insert(epoch);
+    }
+
+    /// Drop and re-create every hash and ordered index of a table from its current rows.
+    fn rebuild_table_indexes(&self, table: &str) -> Vec<String> {
+        let mut errors = Vec::new();
+        for col in self.get_table_indexes(table) {
+            if let Err(e) = self
+                .drop_index(table, &col)
+                .and_then(|()| self.create_index(table, &col))
+            {
+                errors.push(format!("Failed to rebuild index {table}.{col}: {e}"));
+            }
+        }
+        for col in self.get_table_btree_indexes(table) {
+            if let Err(e) = self
+                .drop_btree_index(table, &col)
+                .and_then(|()| self.create_btree_index(table, &col))
+            {
+                errors.push(format!(
+                    "Failed to rebuild ordered index {table}.{col}: {e}"
+                ));
+            }
+        }
+        errors
     }
 
     /// Apply a single undo entry during rollback.
@@ -6860,6 +6926,7 @@ impl RelationalEngine {
         }
 
         // Record undo entry
+        self.note_index_epoch(tx_id);
         self.tx_manager.record_undo(
             tx_id,
             UndoEntry::InsertedRow {
@@ -6978,6 +7045,7 @@ impl RelationalEngine {
             }
 
             // Record undo entry BEFORE making changes
+            self.note_index_epoch(tx_id);
             self.tx_manager.record_undo(
                 tx_id,
                 UndoEntry::UpdatedRow {
@@ -7085,6 +7153,7 @@ impl RelationalEngine {
             }
 
             // Record undo entry BEFORE making changes
+            self.note_index_epoch(tx_id);
             self.tx_manager.record_undo(
                 tx_id,
                 UndoEntry::DeletedRow {
